@@ -541,12 +541,14 @@ def layer_misspelt(rnd, evl, good, bad, acc):
     HUB.case = {"kind": "layer_misspelt", "good": good, "bad": bad}
     arch = LayeredArchitecture().layer("A").containing_modules([good]).layer("B").containing_modules([bad])
     which = rnd.choice(["undefined-layer-object", "undefined-layer-subject", "layer-with-unknown-module"])
+    # an undefined layer name may look like a defined one: other case, surrounding blanks, a prefix, an extension
+    Nope = rnd.choice(["Nope", "a", "b", " A", "B ", "A1", "AB", ""])
     try:
         r = LayerRule().based_on(arch).layers_that()
-        r = r.are_named("Nope" if which == "undefined-layer-subject" else "A")
+        r = r.are_named(Nope if which == "undefined-layer-subject" else "A")
         r = getattr(r, rnd.choice(["should", "should_only", "should_not"]))()
         r = getattr(r, rnd.choice(["access_layers_that", "be_accessed_by_layers_that", "access_layers_except_layers_that"]))()
-        r = r.are_named("Nope" if which == "undefined-layer-object" else "B")
+        r = r.are_named(Nope if which == "undefined-layer-object" else "B")
     except Exception:  # noqa: BLE001  a lookup error at the call is fine
         acc.count("layer_misspelt_rejected_at_call")
         return
